@@ -172,6 +172,12 @@ def run_impl(lines, binary=None, timeout=1800, nproc=4):
             rows += got
             # exit code 75: the harness answered its last case and asks for a fresh process (a worker thread could not be joined)
             if p.returncode == 75 and got: todo = todo[len(got):]
+            elif p.returncode not in (0, 75, 77) and len(got) < len(todo):
+                # the process was killed by a signal (or aborted) while running the case after the answered ones: that case gets a crash
+                # record [3 0 128+signal] as its whole trace and the remaining cases go to a fresh process
+                sig = -p.returncode if p.returncode < 0 else p.returncode
+                rows.append([3, 0, 128 + (sig % 128)])
+                todo = todo[len(got) + 1:]
             else: break
         if len(rows) != len(shards[k]):
             rows += [None] * (len(shards[k]) - len(rows))
